@@ -11,5 +11,7 @@ def fpAlignRecursion : String := "d76e96b076003751"
 def fpAlignTraps : String := "12866ecdea35edb5"
 def fpTraceForward : String := "3242f214c997c8ca"
 def fpTraceReverse : String := "28298aacb4d36e37"
+def fpStartsLess : String := "b7d2e4dbaeec5a67"
+def fpEndsLess : String := "a5365f6edcfa5bf9"
 
 end Biogo.Generated.Pals
